@@ -3775,6 +3775,9 @@ static void valueFlowSymbolicInfer(const SymbolDatabase& symboldatabase, const S
         for (auto* tok = const_cast<Token*>(scope->bodyStart); tok != scope->bodyEnd; tok = tok->next()) {
             if (!Token::Match(tok, "-|%comp%"))
                 continue;
+            // the difference of unsigned operands wraps around: it is not the mathematical difference
+            if (tok->str() == "-" && astIsUnsigned(tok))
+                continue;
             if (tok->hasKnownIntValue())
                 continue;
             if (!tok->astOperand1())
